@@ -325,8 +325,11 @@ class Device(nfc.clf.device.Device):
                 log.debug("rcvd %s %s", req, hexlify(sensb_req).decode())
                 log.debug("send SENSB_RES %s",
                           hexlify(target.sensb_res).decode())
-                self._send_data(brty, target.sensb_res, addr)
-                brty, data, addr = self._recv_data(wait, target.brty)
+                try:
+                    self._send_data(brty, target.sensb_res, addr)
+                    brty, data, addr = self._recv_data(wait, target.brty)
+                except nfc.clf.CommunicationError:
+                    return None
                 return nfc.clf.LocalTarget(brty, sensb_req=sensb_req,
                                            sensb_res=target.sensb_res,
                                            tt4_cmd=data, _addr=addr)
@@ -443,8 +446,11 @@ class Device(nfc.clf.device.Device):
                 data = bytearray([len(atr_res) + 1]) + atr_res
                 if brty == '106A':
                     data.insert(0, 0xF0)
-                self._send_data(brty, data, addr)
-                brty, data, addr = self._recv_data(wait, brty)
+                try:
+                    self._send_data(brty, data, addr)
+                    brty, data, addr = self._recv_data(wait, brty)
+                except nfc.clf.CommunicationError:
+                    return None
                 try:
                     if brty == '106A':
                         assert data.pop(0) == 0xF0
@@ -462,9 +468,13 @@ class Device(nfc.clf.device.Device):
                         + target.psl_res
                     if brty == '106A':
                         data.insert(0, 0xF0)
-                    self._send_data(brty, data, addr)
-                    brty = ('106A', '212F', '424F')[target.psl_req[3] >> 3 & 7]
-                    target.brty, data, addr = self._recv_data(wait, brty)
+                    try:
+                        self._send_data(brty, data, addr)
+                        brty = ('106A', '212F', '424F')[
+                            target.psl_req[3] >> 3 & 7]
+                        target.brty, data, addr = self._recv_data(wait, brty)
+                    except nfc.clf.CommunicationError:
+                        return None
                     try:
                         if brty == '106A':
                             assert data.pop(0) == 0xF0
